@@ -130,6 +130,19 @@ CHECKS.update({
     ),
 })
 
+CHECKS.update({
+    "C19": dict(
+        text="Lean theorems on the model: running any interleaving of any family of sessions gives each session the state and results of its own "
+             "calls alone (sessions are values: true by construction, proved to pin the statement); duplicate registration rejected with ValueError "
+             "and local to the session's registry; a registered session decodes the custom types (C01 instance), an unregistered one treats the same "
+             "bytes as an unknown filter / credential choice or as a generic control. The substance — no shared mutable state between Python "
+             "objects — cannot be a theorem about a value-level model and is carried by translation validation: interleaved live sessions vs the same "
+             "histories alone in fresh interpreters vs the model, plus a direct test of the registration clause in both orders.",
+        technique="Lean 4 proof of the model-level statements + translation validation (interleaved vs isolated runs vs model) for the isolation itself",
+        ref="DESIGN.md §4 C19",
+    ),
+})
+
 NOT_YET = {
 }
 
